@@ -122,7 +122,7 @@ def check_code(s):
         if suf in ('', 'H', 'K', 'M'):
             leg = Fraction(m.group(3)) * {'': 1, 'H': 1, 'K': 1000, 'M': 1609}[suf]
             legs = int(m.group(1))
-            if not (isinstance(dist, int) and legs * (leg - 2) < dist <= legs * leg):
+            if not (isinstance(dist, int) and (legs * (leg - 2) < dist or legs == 0) and dist <= legs * leg):
                 return 'relay distance %r, expected legs x leg = %s x %s m' % (dist, legs, leg)
     try:
         dur = u.get_duration_event_time(s)
